@@ -12,8 +12,16 @@
 (* id's.  Only comparisons of bits are used, so the same module describes  *)
 (* 6-bit model ids and the real 160-bit ids (trace validation).            *)
 (* A bucket is a sequence of peer ids, front of the Go list first.         *)
+(* Update(p, a) carries the address string the peer announces (discovery   *)
+(* calls dht.Update(info.Id, info.RemoteListenAddress())); a peer that     *)
+(* reconnects from another IP / listen port is Updated with a different    *)
+(* address.  As coded, a known peer is recognised BY ITS ID only: it is    *)
+(* moved to the front and keeps the address recorded when it was inserted. *)
 (* Properties (C37): Valid = NoDup /\ BucketLenOK /\ RightBucket,          *)
-(*                   NearestOK (distinct, sorted by XOR distance).         *)
+(*                   NearestOK (distinct, sorted by XOR distance),         *)
+(*                   AddrOK (one address per peer id in the table, i.e.    *)
+(*                   Size = number of distinct ids), RemoveGone (a removed *)
+(*                   peer is not found any more).                          *)
 (***************************************************************************)
 EXTENDS Integers, Sequences, FiniteSets, TLC
 
@@ -21,17 +29,19 @@ CONSTANTS IdBits,     \* peer id -> bit string
           LocalBits,  \* bit string of the local peer id
           K,          \* bucket size
           Peers,      \* ids offered to Update / Remove
+          Addrs,      \* peer id -> set of address strings the peer may announce (positive numbers)
           Targets,    \* ids used as NearestPeers targets
           Counts,     \* `count` arguments of NearestPeers
           MaxOps      \* bound on the number of operations of a behaviour
 
 VARIABLES buckets,  \* rt.Buckets: sequence of buckets (index i+1 = Go bucket i)
+          addr,     \* peer id -> address of its PeerIDAddressPair in the table, 0 if the peer is not in the table
           res,      \* result of the last call: "ok" | "nocap" (ErrPeerRejectedNoCapacity) | "init"
           nops,     \* number of operations so far (bound)
           act       \* last action with arguments (history variable, not in the VIEW)
 
-vars == <<buckets, res, nops, act>>
-view == <<buckets, res>>
+vars == <<buckets, addr, res, nops, act>>
+view == <<buckets, addr, res>>
 
 \* ------------------------------------------------------------------ helpers
 Min(a, b) == IF a < b THEN a ELSE b
@@ -70,25 +80,26 @@ NextBucket(bs) ==
 \* ------------------------------------------------------------------ actions
 PushFront(bs, i, p) == [bs EXCEPT ![i] = <<p>> \o bs[i]]
 
-Update(p) ==
+Update(p, a) ==
   LET i == BucketIdx(buckets, p)
       b == buckets[i]
+      ins == [addr EXCEPT ![p] = a]                                            \* the pair (p, a) is pushed
   IN /\ nops < MaxOps
      /\ nops' = nops + 1
-     /\ act' = [name |-> "Update", p |-> p]
+     /\ act' = [name |-> "Update", p |-> p, a |-> a]
      /\ IF InSeq(p, b)
-        THEN /\ buckets' = [buckets EXCEPT ![i] = <<p>> \o Without(b, p)]      \* MoveToFront
-             /\ res' = "ok"
+        THEN /\ buckets' = [buckets EXCEPT ![i] = <<p>> \o Without(b, p)]      \* bucket.Has(id) -> MoveToFront(id):
+             /\ res' = "ok" /\ addr' = addr                                   \* whatever address is announced
         ELSE IF Len(b) < K
         THEN /\ buckets' = PushFront(buckets, i, p)
-             /\ res' = "ok"
+             /\ res' = "ok" /\ addr' = ins
         ELSE IF i = Len(buckets)
         THEN LET bs2 == NextBucket(buckets)                                    \* unfold the wildcard bucket
                  i2  == BucketIdx(bs2, p)
              IN IF Len(bs2[i2]) >= K
-                THEN /\ buckets' = bs2 /\ res' = "nocap"                       \* the unfolding stays
-                ELSE /\ buckets' = PushFront(bs2, i2, p) /\ res' = "ok"
-        ELSE /\ buckets' = buckets /\ res' = "nocap"
+                THEN /\ buckets' = bs2 /\ res' = "nocap" /\ addr' = addr       \* the unfolding stays
+                ELSE /\ buckets' = PushFront(bs2, i2, p) /\ res' = "ok" /\ addr' = ins
+        ELSE /\ buckets' = buckets /\ res' = "nocap" /\ addr' = addr
 
 Remove(p) ==
   LET i == BucketIdx(buckets, p)
@@ -96,6 +107,7 @@ Remove(p) ==
      /\ nops' = nops + 1
      /\ act' = [name |-> "Remove", p |-> p]
      /\ buckets' = [buckets EXCEPT ![i] = Without(buckets[i], p)]
+     /\ addr' = [addr EXCEPT ![p] = 0]
      /\ res' = "ok"
 
 \* ------------------------------------------------------------------ NearestPeers(id, count), a read
@@ -119,10 +131,10 @@ Nearest(bs, t, count) ==
 
 \* the public call: a read, the answer is recorded in the history variable only
 NearestPeers(t, n) == /\ act' = [name |-> "Nearest", t |-> t, n |-> n, out |-> Nearest(buckets, t, n)]
-                      /\ UNCHANGED <<buckets, res, nops>>
+                      /\ UNCHANGED <<buckets, addr, res, nops>>
 
-Init == /\ buckets = << <<>> >> /\ res = "init" /\ nops = 0 /\ act = [name |-> "Init"]
-Next == \/ \E p \in Peers : Update(p) \/ Remove(p)
+Init == /\ buckets = << <<>> >> /\ addr = [p \in DOMAIN IdBits |-> 0] /\ res = "init" /\ nops = 0 /\ act = [name |-> "Init"]
+Next == \/ \E p \in Peers : Remove(p) \/ \E a \in Addrs[p] : Update(p, a)
         \/ \E t \in Targets : \E n \in Counts : NearestPeers(t, n)
 Spec == Init /\ [][Next]_vars
 
@@ -140,5 +152,11 @@ NearestOKFor(bs, t, n, r) ==
   /\ \A i \in 1..(Len(r) - 1) : DistLess(t, r[i], r[i + 1])
 
 Valid     == ValidTable(buckets)
+\* every peer id of the table has exactly one recorded address (and no other id has one): the number of
+\* PeerIDAddressPairs held (RouteTable.Size) is the number of distinct peer ids
+AddrOK    == \A p \in DOMAIN IdBits : (addr[p] # 0) = (p \in All(buckets))
+SizeOK    == SumLen(buckets, Len(buckets)) = Cardinality({p \in DOMAIN IdBits : addr[p] # 0})
+\* a removed peer is gone: Find(p) after Remove(p) fails
+RemoveGone == [][act'.name = "Remove" /\ nops' # nops => act'.p \notin All(buckets')]_vars
 NearestOK == \A t \in Targets : \A n \in Counts : NearestOKFor(buckets, t, n, Nearest(buckets, t, n))
 =============================================================================
